@@ -305,6 +305,12 @@ def pyEqAlt : Fields → Nat → Val → PyVal → Except Err Bool
   | .cons _ _ rest, i + 1, dv, p => pyEqAlt rest i dv p
 end
 
+/-- `namedType.isDefaulted and component == namedType.asn1Object` -/
+def dfltEq (k : FKind) (t : Ty) (p : PyVal) : Except Err Bool :=
+  match k with
+  | .dflt d => pyEq t d p
+  | _ => .ok false
+
 /-! ### bare-value personality of the BER/CER/DER encoders -/
 
 /-- number of alternatives whose name is a key of the mapping (`names = [... if name in value]`) -/
@@ -411,7 +417,7 @@ def encFieldsPy (cfg : EncCfg) (o : EncOpts) : Fields → Nat → List (Nat × P
       -- an absent key of an OPTIONAL or DEFAULT component is skipped, of a mandatory one refused
       if k.isReq then .error .refused else encFieldsPy cfg o rest (i + 1) kvs
     | some p =>
-      match (match k with | .dflt d => pyEq t d p | _ => .ok false) with
+      match dfltEq k t p with
       | .error e => .error e
       | .ok true => encFieldsPy cfg o rest (i + 1) kvs
       | .ok false =>
@@ -428,7 +434,7 @@ def encSetMembersPy (cfg : EncCfg) (o : EncOpts) (ord : SetOrder) :
     | none =>
       if k.isReq then .error .refused else encSetMembersPy cfg o ord rest (i + 1) kvs
     | some p =>
-      match (match k with | .dflt d => pyEq t d p | _ => .ok false) with
+      match dfltEq k t p with
       | .error e => .error e
       | .ok true => encSetMembersPy cfg o ord rest (i + 1) kvs
       | .ok false =>
@@ -445,6 +451,53 @@ end
 def encodePy (cfg : EncCfg) (o : EncOpts) (t : Ty) (p : PyVal) : Except Err Bytes :=
   let o := normOpts cfg o
   finishItem cfg o t (encValuePy cfg o t p)
+
+/-! ### guards of the encoding-equivalence theorem -/
+
+/-- member types whose DEFAULT comparison with a bare value can neither raise nor be decided through
+    floats: scalar and not REAL (the complement is the region of findings T11 and T12) -/
+def scalarNonReal : Ty → Bool
+  | .tagged _ _ _ t => scalarNonReal t
+  | .prim .real => false
+  | .prim _ => true
+  | _ => false
+
+/-- member types for which `==` recognises the default in the form `toTree` gives it (bool, int,
+    '0101' text, OCTET STRING bytes, arc tuple); character strings given as bytes and NULL given as
+    None are not (finding D17) -/
+def recognised : Ty → Bool
+  | .tagged _ _ _ t => recognised t
+  | .prim .boolean => true
+  | .prim .integer => true
+  | .prim .enumerated => true
+  | .prim .bitString => true
+  | .prim .oid => true
+  | .prim (.str n) => n == 4
+  | _ => false
+
+/-- the guard one member carries: a DEFAULT member has a well-typed default of a scalar non-REAL
+    type, of a recognised one when the tree gives members that hold their default -/
+def memberOk (give : Bool) (k : FKind) (t : Ty) : Bool :=
+  match k with
+  | .dflt d => HasType t d && scalarNonReal t && (!give || recognised t)
+  | _ => true
+
+mutual
+/-- every DEFAULT member anywhere in the type has a well-typed default of a scalar non-REAL type —
+    and, when the tree gives members that hold their default (`give`), of a recognised one -/
+def defaultsOk (give : Bool) : Ty → Bool
+  | .tagged _ _ _ t => defaultsOk give t
+  | .prim _ => true
+  | .any => true
+  | .seq fs => fieldsDefaultsOk give fs
+  | .set fs => fieldsDefaultsOk give fs
+  | .choice fs => fieldsDefaultsOk give fs
+  | .seqOf t => defaultsOk give t
+  | .setOf t => defaultsOk give t
+def fieldsDefaultsOk (give : Bool) : Fields → Bool
+  | .nil => true
+  | .cons k t rest => memberOk give k t && defaultsOk give t && fieldsDefaultsOk give rest
+end
 
 /-! ### driver glue (not verified) -/
 
